@@ -1499,7 +1499,6 @@ func (gs *GossipSubRouter) Join(topic string) {
 		}
 		gs.mesh[topic] = gmap
 		delete(gs.fanout, topic)
-		delete(gs.lastpub, topic)
 	} else {
 		backoff := gs.backoff[topic]
 		peers := gs.getPeers(topic, gs.params.D, func(p peer.ID) bool {
@@ -1511,6 +1510,8 @@ func (gs *GossipSubRouter) Join(topic string) {
 		gmap = peerListToMap(peers)
 		gs.mesh[topic] = gmap
 	}
+	// the publish stamp is kept even when no fanout peers were found
+	delete(gs.lastpub, topic)
 
 	for p := range gmap {
 		gs.logger.Debug("JOIN: Add mesh link to peer in topic", "peer", p, "topic", topic)
